@@ -13,7 +13,7 @@ POOL = ['a\n', 'if a:\n', '  b\n', '    c\n', 'else:\n', '(\n', ')\n', 'def f(\n
         '\f\n', '\tz\n', '# c\n', 'a = 1; \n', 'except:\n', "  '\\\n", '  for i in j:\n',
         '      async def g():\n', 'lambda\n', "  x = f'''{\n",
         'elif a:\n', '  pass\n', 'import a\n', ']\n', '    """\n', 'with a as b: c\n']
-FINALS = ['', 'b', '  (', "'", '    if a:', '    c']
+FINALS = ['', 'b', '  (', "'", '    if a:', '    c', '    ...']
 
 _state = {}
 
@@ -87,8 +87,14 @@ def expand(modname, version, h, finals, pool_lines):
         try:
             m, s = run_state(version, h2)
         except Exception as e:
-            acc.fail(('engb-parse-raises',) + core.exc_sig(e), {'text': ''.join(h2), 'version': version},
-                     repr(e))
+            # the parse of this history raises: let the property's own oracle judge the text (so that the
+            # witness re-executes with the same signature); a failure only the lazy-iterator harness sees
+            # is reported under its own name
+            before = sum(v[0] for v in acc.fails.values())
+            mod.check_text(ctx, fam, ''.join(h2), acc)
+            if sum(v[0] for v in acc.fails.values()) == before:
+                acc.fail(('engb-parse-raises',) + core.exc_sig(e), {'text': ''.join(h2), 'version': version},
+                         repr(e))
             continue
         out.append((h2, s))
         for fin in finals:
